@@ -49,6 +49,9 @@ type CallRec struct {
 }
 
 type harness struct {
+	tmu     sync.Mutex
+	table   []uint32 // shared flat passcode table (SetDoorPasscodes arguments are windows of it)
+	tableN  int
 	sim     *vnet.Sim
 	sc      *Scenario
 	clients []uhppote.IUHPPOTE
@@ -294,9 +297,51 @@ func (h *harness) build() {
 			types.BindAddr{AddrPort: addrPort(c.Bind)},
 			types.BroadcastAddr{AddrPort: addrPort(c.Broadcast)},
 			types.ListenAddr{AddrPort: addrPort(c.Listen)},
-			c.Timeout, devs, false)
+			c.Timeout, devs, c.Debug)
 		h.clients = append(h.clients, u)
 		h.devs = append(h.devs, devs)
+	}
+}
+
+const passSentinel = 0xdeadbeef
+
+// passWindow places the passcodes in the shared table and returns the window plus a function that
+// verifies afterwards that neither the window nor its surroundings were written to.
+func (h *harness) passWindow(st *Step, pass []uint32) ([]uint32, func() string) {
+	if pass == nil {
+		return nil, func() string { return "" }
+	}
+	h.tmu.Lock()
+	if h.table == nil {
+		h.table = make([]uint32, 4096)
+		for i := range h.table {
+			h.table[i] = passSentinel
+		}
+	}
+	gap := 8
+	if h.sc.Profile == "C08" {
+		gap = 0 // concurrent callers hold adjacent windows: one caller's spare capacity is the next caller's argument
+	}
+	off := h.tableN
+	h.tableN += len(pass) + gap
+	if h.tableN+16 > len(h.table) {
+		off, h.tableN = 0, len(pass)+gap
+	}
+	h.tmu.Unlock()
+	win := h.table[off : off+len(pass)]
+	copy(win, pass)
+	return win, func() string {
+		for i, v := range pass {
+			if win[i] != v {
+				return fmt.Sprintf("SetDoorPasscodes modified its argument: passcodes[%d] was %d, is %d", i, v, win[i])
+			}
+		}
+		for i := off + len(pass); i < off+len(pass)+gap && i < len(h.table); i++ {
+			if h.table[i] != passSentinel {
+				return fmt.Sprintf("SetDoorPasscodes wrote beyond the slice it was given (into its spare capacity): element %d past the end is %d", i-off-len(pass), h.table[i])
+			}
+		}
+		return ""
 	}
 }
 
@@ -676,6 +721,7 @@ func buildArgs(op model.Op, a *model.Args) builtArgs {
 		if a.Passcodes != nil {
 			b.Pass = append([]uint32{}, a.Passcodes...)
 		}
+		// (the call itself passes a window of the harness's shared passcode table, see passWindow)
 	case model.ActivateKeypads:
 		if !a.NilMap {
 			b.Readers = map[uint8]bool{}
@@ -760,7 +806,13 @@ func (h *harness) call(st *Step) (val any, rec CallRec, argsChanged string) {
 		case model.SetEventIndex:
 			val, err = u.SetEventIndex(a.Serial, a.U32)
 		case model.SetDoorPasscodes:
-			val, err = u.SetDoorPasscodes(a.Serial, a.U8, b.Pass...)
+			// an application keeps the passcodes of its doors in one flat table and passes windows of it:
+			// the slice has spare capacity that belongs to the neighbouring doors
+			win, check := h.passWindow(st, b.Pass)
+			val, err = u.SetDoorPasscodes(a.Serial, a.U8, win...)
+			if msg := check(); msg != "" {
+				argsChanged = msg
+			}
 		case model.OpenDoor:
 			val, err = u.OpenDoor(a.Serial, a.U8)
 		case model.SetPCControl:
@@ -778,7 +830,7 @@ func (h *harness) call(st *Step) (val any, rec CallRec, argsChanged string) {
 	rec = observe(st.Op, val, err)
 	rec.Obs.Panic = p
 
-	if !reflect.DeepEqual(b, want) {
+	if argsChanged == "" && !reflect.DeepEqual(b, want) {
 		argsChanged = fmt.Sprintf("%v: arguments differ after the call: %+v vs %+v", st.Op, b, want)
 	}
 	return val, rec, argsChanged
